@@ -88,6 +88,9 @@ type Walker struct {
 	fr       *frame
 	cur      *pstate
 	lastPred *ssa.BasicBlock // predecessor through which the current block was entered
+	parent   *Walker         // the walker that inlined this helper (nil at top level)
+	parentPs *pstate         // its path state at the call
+	argVals  []ssa.Value     // the call's argument values in the parent's function
 	Target   func(in ssa.Instruction, w *Walker) bool
 	Stop     func(b *ssa.BasicBlock) bool
 	RetIdx   int
@@ -413,6 +416,26 @@ func (w *Walker) evalBool(v ssa.Value, ps *pstate) Tri {
 	case *ssa.BinOp:
 		switch x.Op {
 		case token.LSS, token.LEQ, token.GTR, token.GEQ, token.EQL, token.NEQ:
+			if isIntType(x.X.Type()) {
+				if a, ok := w.evalInt(x.X, ps); ok {
+					if b, ok := w.evalInt(x.Y, ps); ok {
+						switch x.Op {
+						case token.LSS:
+							return tri(a < b)
+						case token.LEQ:
+							return tri(a <= b)
+						case token.GTR:
+							return tri(a > b)
+						case token.GEQ:
+							return tri(a >= b)
+						case token.EQL:
+							return tri(a == b)
+						case token.NEQ:
+							return tri(a != b)
+						}
+					}
+				}
+			}
 			if r := w.cmpRanks(x.Op, x.X, x.Y); r != U {
 				return r
 			}
@@ -485,10 +508,12 @@ func (w *Walker) evalCall(c *ssa.Call, ps *pstate) Tri {
 	}
 	sub := NewWalker(w.env, fr)
 	sub.RetIdx = 0
+	sub.parent, sub.parentPs, sub.argVals = w, ps, c.Call.Args
 	w.env.depth++
 	outs := sub.Run(callee.Blocks[0], nil)
 	w.env.depth--
 	w.env.CurW = w
+	w.cur = ps
 	res := U
 	for _, o := range outs {
 		if o.Ended != "return" || o.Ret == U {
@@ -796,4 +821,84 @@ func pureTerm(t *Term) bool {
 		}
 	}
 	return false
+}
+
+// evalInt: the integer value of v on the current path when it is determined by the ordering: a
+// constant, a loop-free integer helper of the module whose result is the same constant on every
+// path (a three-way comparator), strings.Compare/cmp.Compare of two roles, or a phi that took a constant.
+func (w *Walker) evalInt(v ssa.Value, ps *pstate) (int64, bool) {
+	switch x := v.(type) {
+	case *ssa.Parameter:
+		// a parameter of an inlined helper: evaluate the argument in the caller's context
+		if w.parent != nil {
+			for i, p := range x.Parent().Params {
+				if p == x && i < len(w.argVals) {
+					saved := w.parent.cur
+					w.parent.cur = w.parentPs
+					r, ok := w.parent.evalInt(w.argVals[i], w.parentPs)
+					w.parent.cur = saved
+					return r, ok
+				}
+			}
+		}
+	case *ssa.Const:
+		if x.Value != nil && x.Value.Kind() == constant.Int {
+			return x.Int64(), true
+		}
+	case *ssa.Phi:
+		if iv, ok := ps.ints[x]; ok {
+			return iv, true
+		}
+		if pv, ok := ps.phiVal[x]; ok && pv != ssa.Value(x) {
+			return w.evalInt(pv, ps)
+		}
+	case *ssa.Call:
+		callee := x.Call.StaticCallee()
+		if callee == nil {
+			return 0, false
+		}
+		if full := calleeFull(&x.Call); (full == "strings.Compare" || full == "cmp.Compare") && len(x.Call.Args) == 2 {
+			lt := w.cmpRanks(token.LSS, x.Call.Args[0], x.Call.Args[1])
+			gt := w.cmpRanks(token.GTR, x.Call.Args[0], x.Call.Args[1])
+			switch {
+			case lt == T:
+				return -1, true
+			case gt == T:
+				return 1, true
+			case lt == F && gt == F:
+				return 0, true
+			}
+			return 0, false
+		}
+		if callee.Blocks == nil || !w.env.a.fnInModule(callee) || w.env.depth >= 3 || callee.Signature.Results().Len() != 1 || !isIntType(callee.Signature.Results().At(0).Type()) {
+			return 0, false
+		}
+		fr := &frame{fn: callee}
+		for _, arg := range x.Call.Args {
+			fr.args = append(fr.args, w.cur.tm.of(arg))
+		}
+		sub := NewWalker(w.env, fr)
+		sub.RetIdx = 0
+		sub.parent, sub.parentPs, sub.argVals = w, ps, x.Call.Args
+		w.env.depth++
+		outs := sub.Run(callee.Blocks[0], nil)
+		w.env.depth--
+		w.env.CurW = w
+		w.cur = ps
+		var res *int64
+		for _, o := range outs {
+			if o.Ended != "return" || o.RetI == nil {
+				return 0, false
+			}
+			if res == nil {
+				res = o.RetI
+			} else if *res != *o.RetI {
+				return 0, false
+			}
+		}
+		if res != nil {
+			return *res, true
+		}
+	}
+	return 0, false
 }
